@@ -5,6 +5,7 @@ import (
 	"reflect"
 	"sort"
 	"strings"
+	"time"
 
 	owsim "github.com/flowmatters/openwater-core/cmd/ow-sim"
 	"github.com/flowmatters/openwater-core/sim"
@@ -26,7 +27,11 @@ func init() { engines["owsim"] = engineOwSim }
 var linkDest = []string{"Input", "Sum", "ApplyScalingFactor", "FixedPartition", "DeliveryRatio", "Gate", "PartitionDemand",
 	"RunoffCoefficient", "EmcDwc", "FixedConcentration", "Lag", "Muskingum", "DepthToRate", "PassLoadIfFlow", "ComputeProportion", "VariablePartition"}
 var sourceOnly = []string{"GR4J", "Simhyd", "RatingCurvePartition", "Sacramento", "Surm", "DateGenerator",
-	"Storage", "StorageRouting", "StorageTrapAll", "StorageParticulateTrapping", "DynamicSednetGully", "DynamicSednetGullyAlt"}
+	"Storage", "StorageRouting", "StorageTrapAll", "StorageParticulateTrapping", "StorageDissolvedDecay", "DynamicSednetGully", "DynamicSednetGullyAlt"}
+
+// owPoolExclude: models left out of the graph (set by the hot-start engine for models whose
+// continuity defects are known findings of C06).
+var owPoolExclude = map[string]bool{}
 
 type gNode struct {
 	own    int // own state-vector width (the dataset row may be wider: zero padded)
@@ -65,6 +70,7 @@ type owCase struct {
 	in, out, paramFile, stateFile, tsFile, finalFile string
 	preexisting                                      bool
 	relatedNames                                     bool
+	t0, t1                                           int // time window written by buildFiles (0,0 = the whole period)
 	mixedWidths                                      bool
 }
 
@@ -82,7 +88,12 @@ func drawOwCase(w *simrt.Tape) *owCase {
 	c.G = sizeDraw(w, 5, 9)
 	c.T = sizeDraw(w, 12, 50)
 	nModels := 1 + w.Choose(4)
-	pool := append(append([]string{}, linkDest...), sourceOnly...)
+	var pool []string
+	for _, n := range append(append([]string{}, linkDest...), sourceOnly...) {
+		if !owPoolExclude[n] {
+			pool = append(pool, n)
+		}
+	}
 	used := map[string]bool{}
 	relatedNames := false
 	for i := 0; i < nModels; i++ {
@@ -335,11 +346,19 @@ func (c *owCase) buildFiles() {
 			iv := make([]float64, 0, m.total*nIn*c.T+1)
 			for _, nd := range nodes {
 				for k := 0; k < nIn; k++ {
-					iv = append(iv, nd.inputs[k]...)
+					if c.t1 > 0 {
+						iv = append(iv, nd.inputs[k][c.t0:c.t1]...)
+					} else {
+						iv = append(iv, nd.inputs[k]...)
+					}
 				}
 			}
 			iv = append(iv, 0)
-			hdf5.PutRaw(c.tsFile, base+"/inputs", []int{m.total, nIn, c.T}, iv)
+			tw := c.T
+			if c.t1 > 0 {
+				tw = c.t1 - c.t0
+			}
+			hdf5.PutRaw(c.tsFile, base+"/inputs", []int{m.total, nIn, tw}, iv)
 		}
 	}
 	if c.preexisting {
@@ -420,7 +439,7 @@ func engineOwSim(rc *RunCtx) *Outcome {
 	o.Sample = map[string]interface{}{"models_with_batches": modelNames, "generations": c.G, "timesteps": c.T, "links": len(c.links),
 		"args": c.args, "flags": fmt.Sprintf("%+v", c.flags), "disk_latency": ctl.Latency}
 	var retSeq int64 = -1
-	s := simrt.Run(rc.T, simrt.Config{TraceCap: 0, DeepPct: 20}, rc.S, func() {
+	s := simrt.Run(rc.T, simrt.Config{TraceCap: 0, DeepPct: 20, MaxSimTime: 1000 * time.Hour}, rc.S, func() {
 		owsim.VerifRunSimulation(c.args)
 		retSeq = simrt.NextSeq()
 	})
@@ -666,4 +685,127 @@ func compareDataset(file, path string, shape []int, vals []float64) error {
 		return nil
 	}
 	return fmt.Errorf("dataset %s:%s does not exist", file, path)
+}
+
+// engine "owsimsplit": hot-start continuity through the ow-sim tool chain (C06): the same model
+// graph is simulated once for the whole period and once in two consecutive ow-sim runs, the second
+// of which starts from the final-states file of the first (-final-states / -initial-states).
+func init() { engines["owsimsplit"] = engineOwSimSplit }
+
+func engineOwSimSplit(rc *RunCtx) *Outcome {
+	o := &Outcome{}
+	w := rc.W
+	owPoolExclude = map[string]bool{"Sacramento": true, "DateGenerator": true}
+	defer func() { owPoolExclude = map[string]bool{} }()
+	c := drawOwCase(w)
+	if c.T < 2 {
+		c.T = 2 + w.Choose(10)
+		for _, m := range c.models {
+			for _, nd := range m.allNodes() {
+				if nd.inputs != nil {
+					nd.inputs = domains.GenInputs(w, m.name, nd.col, m.maxDim, c.T)
+				}
+			}
+		}
+	}
+	cut := 1 + w.Choose(c.T-1)
+	c.flags = owsim.VerifFlagSet{}
+	c.preexisting = false
+	ctl := hdf5.Reset()
+	ctl.Tape = rc.S
+	ctl.Monitor = true
+	ctl.Latency = w.Bool(50)
+	var names []string
+	for _, m := range c.models {
+		names = append(names, fmt.Sprintf("%s%v", m.name, m.batches))
+	}
+	o.Sample = map[string]interface{}{"models_with_batches": names, "generations": c.G, "timesteps": c.T, "cut_after": cut, "links": len(c.links)}
+	build := func(in string, t0, t1 int) {
+		c.in, c.paramFile, c.stateFile, c.tsFile = in, in, in, in
+		c.t0, c.t1 = t0, t1
+		c.buildFiles()
+	}
+	build("/sim/full.h5", 0, c.T)
+	build("/sim/first.h5", 0, cut)
+	build("/sim/second.h5", cut, c.T)
+	s := simrt.Run(rc.T, simrt.Config{DeepPct: 10, MaxSimTime: 1000 * time.Hour}, rc.S, func() {
+		owsim.VerifSetFlags(owsim.VerifFlagSet{})
+		owsim.VerifRunSimulation([]string{"/sim/full.h5", "/sim/out-full.h5"})
+		owsim.VerifSetFlags(owsim.VerifFlagSet{FinalStates: "/sim/states-after-first.h5"})
+		owsim.VerifRunSimulation([]string{"/sim/first.h5", "/sim/out-first.h5"})
+		owsim.VerifSetFlags(owsim.VerifFlagSet{InitialStates: "/sim/states-after-first.h5"})
+		owsim.VerifRunSimulation([]string{"/sim/second.h5", "/sim/out-second.h5"})
+	})
+	o.Sim = s
+	o.Nontrivial = s.Stats.Picks > 0
+	o.fault("crash+restart via ow-sim -final-states/-initial-states files")
+	switch s.Outcome {
+	case "":
+	case "crash":
+		o.fail("process-crash", "owsim-hotstart/crash@"+crashSite(s.Crash.Stack), "ow-sim panicked during the hot-start sequence: %s\n%s", s.Crash.Value, s.Crash.Stack)
+		return o
+	case "exit":
+		o.fail("unexpected-exit", "owsim-hotstart/exit", "ow-sim called os.Exit(%d) during the hot-start sequence (at %s); cut after %d of %d steps", *s.ExitCode, s.ExitSite, cut, c.T)
+		return o
+	default:
+		o.fail("no-progress", "owsim-hotstart/"+s.Outcome, "%s; tasks: %v", s.Outcome, s.Blocked)
+		return o
+	}
+	get := func(file, path string) *hdf5.DatasetCopy {
+		ds, _, ok := hdf5.Snapshot(file)
+		if !ok {
+			return nil
+		}
+		for i := range ds {
+			if ds[i].Path == path {
+				return &ds[i]
+			}
+		}
+		return nil
+	}
+	for _, m := range c.models {
+		if m.total == 0 {
+			continue
+		}
+		tol := tolFor(m.name)
+		base := "/MODELS/" + m.name
+		full, first, second := get("/sim/out-full.h5", base+"/outputs"), get("/sim/out-first.h5", base+"/outputs"), get("/sim/out-second.h5", base+"/outputs")
+		if full == nil || first == nil || second == nil {
+			o.fail("split-output-differs", "owsim-hotstart/"+m.name, "%s: an outputs dataset is missing in one of the three ow-sim runs", m.name)
+			return o
+		}
+		nOut := len(m.desc.Outputs)
+		for r := 0; r < m.total; r++ {
+			for k := 0; k < nOut; k++ {
+				for t := 0; t < c.T; t++ {
+					e := full.Floats[(r*nOut+k)*c.T+t]
+					var g float64
+					if t < cut {
+						g = first.Floats[(r*nOut+k)*cut+t]
+					} else {
+						g = second.Floats[(r*nOut+k)*(c.T-cut)+t-cut]
+					}
+					o.Checks++
+					if !closeRel(g, e, tol) {
+						o.fail("split-output-differs", "owsim-hotstart/"+m.name, "%s node %d output %s[%d] = %v when ow-sim runs the period in two parts (cut after step %d, second part started with -initial-states from the first part's -final-states file), %v in one run", m.name, r, m.desc.Outputs[k], t, g, cut, e)
+						return o
+					}
+				}
+			}
+		}
+		fs, ss := get("/sim/out-full.h5", base+"/states"), get("/sim/out-second.h5", base+"/states")
+		if fs == nil || ss == nil || len(fs.Floats) != len(ss.Floats) {
+			o.fail("split-state-differs", "owsim-hotstart/"+m.name, "%s: final states datasets missing or of different extent", m.name)
+			return o
+		}
+		for i := range fs.Floats {
+			o.Checks++
+			if !closeRel(ss.Floats[i], fs.Floats[i], tol) {
+				o.fail("split-state-differs", "owsim-hotstart/"+m.name, "%s final state element %d = %v after the two-part ow-sim run, %v in one run", m.name, i, ss.Floats[i], fs.Floats[i])
+				return o
+			}
+		}
+	}
+	o.probe("owsim_hot_start_through_state_files")
+	return o
 }
